@@ -80,6 +80,7 @@ let parse_uop (t : string list) : uop =
   | ["resolve"; r; "host"; id; port; h] -> UResolve (zi r, RHost (zi id), zi port, zi h)
   | ["rslv_cancel"; r] -> URslvCancel (zi r)
   | ["pcap_on"] -> UPcapOn
+  | ["set_next_port"; n] -> USetNextPort (zi n)
   | _ -> failwith ("bad op: " ^ String.concat " " t)
 
 let parse_sink (t : string list) : z * sink =
@@ -108,6 +109,10 @@ let parse_script (lines : string list list) : script =
       | ["MTUP"; f1; a1; f2; a2; m] -> w := { !w with w_mtus = !w.w_mtus @ [((mk_addr f1 a1, mk_addr f2 a2), zi m)] }
       | "HOST" :: id :: lat :: ec :: rest ->
           w := { !w with w_hosts = mset !w.w_hosts (zi id) { h_lat = zi lat; h_ec = zi ec; h_addrs = addr_list rest } }
+      | "M" :: "repeat" :: n :: rest ->
+          let ops = String.split_on_char ';' (String.concat " " rest) in
+          let uops = List.map (fun o -> parse_uop (tokens o)) ops in
+          for _ = 1 to int_of_string n do main := CmdOps uops :: !main done
       | "M" :: ["run"] -> main := CmdRun :: !main
       | "M" :: ["restart"] -> main := CmdRestart :: !main
       | "M" :: _ -> main := CmdOps [parse_uop (List.tl t)] :: !main
